@@ -64,9 +64,10 @@ def run_config(cfg):
     r = random.Random(cfg["data_seed"])
     depth = cfg["depth"]
     n = depth
+    n_deep = cfg.get("deep_len", 0)
     opp = cfg["opp"]
     outliers_on = opp > 0
-    data = bridge.make_data(r, n, samples=cfg["samples"], grid=cfg["grid"], style=cfg["style"],
+    data = bridge.make_data(r, max(n, n_deep), samples=cfg["samples"], grid=cfg["grid"], style=cfg["style"],
                             outlier_prob=(cfg["outlier_prob"] if outliers_on else 0.0))
     tree_dist = TreeJointDistribution(FSCRPDistribution(cfg["alpha"]))
     perm = RootPermutationDistribution() if cfg["perm"] else None
@@ -94,111 +95,149 @@ def run_config(cfg):
     def add(key, detail, rep):
         problems.append((dict(base, **key), detail, rep))
 
-    def visit(parent_particle, parent_tree, parent_forest, todo, sum_wq, path):
-        stats["parents"] += 1
+    def pair_checks(parent_particle, parent_tree, parent_forest, dp, path):
+        """Checks 1-3 for one (parent state, next data point); returns {canonical placement: (tree, holder, forest, log_q)}."""
         pc = parent_class(parent_forest)
-        stats["classes"][pc] = stats["classes"].get(pc, 0) + 1
-        for pos, dp in enumerate(todo):
-            pf = parent_forest if parent_forest is not None else models.EMPTY
-            cands = models.placements(pf, dp, outliers_on)
-            dist = kernel.get_proposal_distribution(data[dp], parent_particle, parent_tree)
-            stats["pairs"] += 1
-            if parent_forest is not None:
-                seen_pairs.add((models.canon(parent_forest), dp))
-            rep = {"cfg": cfg, "path": path, "next": dp}
-            lps = {}
-            trees = {}
-            ok = True
-            for cf in cands:
-                cn = models.canon(cf)
-                t = realise(parent_tree, parent_forest, cf, dp, data, r)
-                assert bridge.canon_tree(t) == cn
-                try:
-                    th = TreeHolder(t, tree_dist, perm)
-                    lp = float(dist.log_p(th))
-                    if cfg["proposal"] == "bootstrap":
-                        lp2 = float(dist.log_p(t))
-                        if abs(lp2 - lp) > TOL:
-                            add({"sub": "log_p_tree_vs_holder", "parent": pc}, "log_p(Tree)=%r log_p(TreeHolder)=%r" % (lp2, lp), rep)
-                except (HarnessUnsupported,):
-                    raise
-                except Exception as e:
-                    add({"sub": "log_p_exception", "parent": pc, "exc": type(e).__name__},
-                        "log_p raised %r for placement %s on parent %s" % (e, models.canon_str(cn), pc), rep)
-                    ok = False
-                    continue
-                if not math.isfinite(lp):
-                    add({"sub": "log_p_not_finite", "parent": pc}, "log_p=%r for placement %s" % (lp, models.canon_str(cn)), rep)
-                    ok = False
-                lps[cn] = lp
-                trees[cn] = (t, th, cf)
-            if ok:
-                tot = math.fsum(math.exp(v) for v in lps.values())
-                if abs(tot - 1.0) > TOL:
-                    add({"sub": "normalisation", "parent": pc}, "sum over %d placements of exp(log_p) = %.12g (parent %s, next dp %d)" % (
-                        len(lps), tot, models.canon_str(models.canon(pf)), dp), rep)
-            # faithful sampling + completeness: traverse sample()
-            mass = {}
-
-            def leaf(g):
-                holder["g"] = g
-                res = dist.sample()
-                tr = res if hasattr(res, "get_parent") else res.tree
-                return bridge.canon_tree(tr)
-
+        pf = parent_forest if parent_forest is not None else models.EMPTY
+        cands = models.placements(pf, dp, outliers_on)
+        dist = kernel.get_proposal_distribution(data[dp], parent_particle, parent_tree)
+        stats["pairs"] += 1
+        if parent_forest is not None:
+            seen_pairs.add((models.canon(parent_forest), dp))
+            stats["max_top_level_clones"] = max(stats.get("max_top_level_clones", 0), sum(1 for p_ in pf.parent if p_ == -1))
+        rep = {"cfg": cfg, "path": path, "next": dp}
+        lps = {}
+        trees = {}
+        ok = True
+        for cf in cands:
+            cn = models.canon(cf)
+            t = realise(parent_tree, parent_forest, cf, dp, data, r)
+            assert bridge.canon_tree(t) == cn
             try:
-                for res, p, script in explore(leaf, max_leaves=200000):
-                    mass[res] = mass.get(res, 0.0) + p
-                    stats["leaves"] += 1
-            except (HarnessUnsupported, ExploreBudget):
+                th = TreeHolder(t, tree_dist, perm)
+                lp = float(dist.log_p(th))
+                if cfg["proposal"] == "bootstrap":
+                    lp2 = float(dist.log_p(t))
+                    if abs(lp2 - lp) > TOL:
+                        add({"sub": "log_p_tree_vs_holder", "parent": pc}, "log_p(Tree)=%r log_p(TreeHolder)=%r" % (lp2, lp), rep)
+            except (HarnessUnsupported,):
                 raise
             except Exception as e:
-                add({"sub": "sample_exception", "parent": pc, "exc": type(e).__name__}, "sample() raised %r" % (e,), rep)
-                mass = None
-            finally:
-                holder["g"] = None
-            if mass is not None:
-                extra = set(mass) - set(lps)
-                missing = set(lps) - set(mass)
-                if extra:
-                    add({"sub": "support_extra", "parent": pc}, "sample() returns %s which is not a placement of dp %d" % (
-                        models.canon_str(sorted(extra, key=repr)[0]), dp), rep)
-                if missing:
-                    add({"sub": "support_missing", "parent": pc}, "placement %s is never sampled" % models.canon_str(sorted(missing, key=repr)[0]), rep)
-                for cn, m in mass.items():
-                    if cn in lps and abs(m - math.exp(lps[cn])) > TOL:
-                        add({"sub": "faithful", "parent": pc}, "tree %s sampled with probability %.12g, log_p reports %.12g" % (
-                            models.canon_str(cn), m, math.exp(lps[cn])), rep)
-                        break
-            # weights: only along the first remaining point (genealogy order 0,1,2,...)
+                add({"sub": "log_p_exception", "parent": pc, "exc": type(e).__name__},
+                    "log_p raised %r for placement %s on parent %s" % (e, models.canon_str(cn), pc), rep)
+                ok = False
+                continue
+            if not math.isfinite(lp):
+                add({"sub": "log_p_not_finite", "parent": pc}, "log_p=%r for placement %s" % (lp, models.canon_str(cn)), rep)
+                ok = False
+            lps[cn] = lp
+            trees[cn] = (t, th, cf, lp)
+        if ok:
+            tot = math.fsum(math.exp(v) for v in lps.values())
+            if abs(tot - 1.0) > TOL:
+                add({"sub": "normalisation", "parent": pc}, "sum over %d placements of exp(log_p) = %.12g (parent %s, next dp %d)" % (
+                    len(lps), tot, models.canon_str(models.canon(pf)), dp), rep)
+        mass = {}
+
+        def leaf(g):
+            holder["g"] = g
+            res = dist.sample()
+            tr = res if hasattr(res, "get_parent") else res.tree
+            return bridge.canon_tree(tr)
+
+        try:
+            for res, p, script in explore(leaf, max_leaves=400000):
+                mass[res] = mass.get(res, 0.0) + p
+                stats["leaves"] += 1
+        except (HarnessUnsupported, ExploreBudget):
+            raise
+        except Exception as e:
+            add({"sub": "sample_exception", "parent": pc, "exc": type(e).__name__}, "sample() raised %r" % (e,), rep)
+            mass = None
+        finally:
+            holder["g"] = None
+        if mass is not None:
+            extra = set(mass) - set(lps)
+            missing = set(lps) - set(mass)
+            if extra:
+                add({"sub": "support_extra", "parent": pc}, "sample() returns %s which is not a placement of dp %d" % (
+                    models.canon_str(sorted(extra, key=repr)[0]), dp), rep)
+            if missing:
+                add({"sub": "support_missing", "parent": pc}, "placement %s is never sampled" % models.canon_str(sorted(missing, key=repr)[0]), rep)
+            for cn, m in mass.items():
+                if cn in lps and abs(m - math.exp(lps[cn])) > TOL:
+                    add({"sub": "faithful", "parent": pc}, "tree %s sampled with probability %.12g, log_p reports %.12g" % (
+                        models.canon_str(cn), m, math.exp(lps[cn])), rep)
+                    break
+        return trees, rep, pc
+
+    def weight_step(parent_particle, cn, t, th, cf, lq, sum_wq, last, n_total, rep, pc):
+        """Weight identities for one placement; returns (particle, new running sum)."""
+        particle = kernel.create_particle(lq, parent_particle, th)
+        lw = float(particle.log_w)
+        s_ = sum_wq + lw + lq
+        lp_f, lp1_f, pdf_f = fresh_target(cf, None)
+        if not (abs(s_ - (lp_f + pdf_f)) <= 1e-8 * max(1.0, abs(s_))):
+            add({"sub": "weights_telescope", "parent": pc},
+                "sum of (log_w + log_q) along the genealogy = %.12g, target log_p + log_pdf = %.12g for %s" % (
+                    s_, lp_f + pdf_f, models.canon_str(cn)), dict(rep, placed=models.canon_str(cn)))
+        if last:
+            stats["genealogies"] += 1
+            smp = SMCSampler([data[k] for k in range(n_total)], kernel, 2, resample_threshold=0.0)
+            smp.iteration = n_total - 1
+            lw_last = float(smp._get_log_w(particle))
+            s2 = sum_wq + lw_last + lq
+            if not (abs(s2 - (lp1_f + pdf_f)) <= 1e-8 * max(1.0, abs(s2))):
+                add({"sub": "weights_final_target", "parent": pc},
+                    "with the last-step correction the weights x proposals give %.12g, target log_p_one + log_pdf = %.12g for %s" % (
+                        s2, lp1_f + pdf_f, models.canon_str(cn)), dict(rep, placed=models.canon_str(cn)))
+        return particle, s_
+
+    def visit(parent_particle, parent_tree, parent_forest, todo, sum_wq, path):
+        stats["parents"] += 1
+        pc0 = parent_class(parent_forest)
+        stats["classes"][pc0] = stats["classes"].get(pc0, 0) + 1
+        for pos, dp in enumerate(todo):
+            trees, rep, pc = pair_checks(parent_particle, parent_tree, parent_forest, dp, path)
             if pos == 0:
                 rest = todo[1:]
-                for cn, (t, th, cf) in trees.items():
-                    if cn not in lps or not math.isfinite(lps[cn]):
+                for cn, (t, th, cf, lq) in trees.items():
+                    if not math.isfinite(lq):
                         continue
-                    particle = kernel.create_particle(lps[cn], parent_particle, th)
-                    lw = float(particle.log_w)
-                    s = sum_wq + lw + lps[cn]
-                    lp_f, lp1_f, pdf_f = fresh_target(cf, None)
-                    if not (abs(s - (lp_f + pdf_f)) <= 1e-8 * max(1.0, abs(s))):
-                        add({"sub": "weights_telescope", "parent": pc},
-                            "sum of (log_w + log_q) along the genealogy = %.12g, target log_p + log_pdf = %.12g for %s" % (
-                                s, lp_f + pdf_f, models.canon_str(cn)), dict(rep, placed=models.canon_str(cn)))
-                    if not rest:
-                        stats["genealogies"] += 1
-                        # last-step correction as AbstractSMCSampler._get_log_w applies it
-                        smp = SMCSampler([data[k] for k in range(n)], kernel, 2, resample_threshold=0.0)
-                        smp.iteration = n - 1
-                        lw_last = float(smp._get_log_w(particle))
-                        s2 = sum_wq + lw_last + lps[cn]
-                        if not (abs(s2 - (lp1_f + pdf_f)) <= 1e-8 * max(1.0, abs(s2))):
-                            add({"sub": "weights_final_target", "parent": pc},
-                                "with the last-step correction the weights x proposals give %.12g, target log_p_one + log_pdf = %.12g for %s" % (
-                                    s2, lp1_f + pdf_f, models.canon_str(cn)), dict(rep, placed=models.canon_str(cn)))
-                    else:
-                        visit(particle, t, cf, rest, s - 0.0, path + [models.canon_str(cn)])
+                    particle, s_ = weight_step(parent_particle, cn, t, th, cf, lq, sum_wq, not rest, n, rep, pc)
+                    if rest:
+                        visit(particle, t, cf, rest, s_, path + [models.canon_str(cn)])
+
+    def deep_path(rr, length):
+        """One seeded genealogy of `length` placements, biased towards many top-level clones and several outliers, with all
+        per-pair checks at every step (reaches parent states the systematic closure is too shallow for)."""
+        pp, pt, pf, s_, path = None, None, None, 0.0, []
+        for dp in range(length):
+            stats["parents"] += 1
+            trees, rep, pc = pair_checks(pp, pt, pf, dp, path)
+            cns = [c for c in trees if math.isfinite(trees[c][3])]
+            if not cns:
+                return
+            cns.sort(key=repr)
+            u = rr.random()
+            flat = [c for c in cns if len(c[0]) == (len(pf.own) if pf else 0) + 1 and all(
+                (own == cl) for own, cl in c[0] if dp in own)]  # new top-level clone without children
+            outl = [c for c in cns if dp in c[1]]
+            if u < 0.45 and flat:
+                cn = flat[0]
+            elif u < 0.6 and outl:
+                cn = outl[0]
+            else:
+                cn = rr.choice(cns)
+            t, th, cf, lq = trees[cn]
+            pp, s_ = weight_step(pp, cn, t, th, cf, lq, s_, dp == length - 1, length, rep, pc)
+            pt, pf = t, cf
+            path = path + [models.canon_str(cn)]
 
     visit(None, None, None, list(range(n)), 0.0, [])
+    rr = random.Random(cfg["data_seed"] ^ 0x77)
+    for _ in range(cfg.get("deep_paths", 0)):
+        deep_path(rr, n_deep)
 
     # the standard sampler's swarm, no resampling: weights must equal target / prod q up to the common constant
     for rep_i in range(cfg["swarm_runs"]):
@@ -257,13 +296,13 @@ def configs(ctx):
         for opp in (0.0, 0.1, 0.5):
             for perm in (True, False):
                 out.append(dict(proposal=prop, opp=opp, perm=perm, alpha=1.0, data_seed=r.randrange(1 << 30), depth=depth, samples=1,
-                                grid=4, style="gauss", outlier_prob=0.05, swarm_runs=3, swarm_N=4))
+                                grid=4, style="gauss", outlier_prob=0.05, swarm_runs=3, swarm_N=4, deep_paths=3 if quick else 12, deep_len=7 if quick else 8))
     for i in range(12 if quick else 150):
         out.append(dict(proposal=r.choice(PROPOSALS), opp=r.choice([0.0, 0.1, 0.5, round(r.uniform(0.01, 0.95), 3)]), perm=r.random() < 0.6,
                         alpha=round(math.exp(r.uniform(math.log(0.05), math.log(20))), 4), data_seed=r.randrange(1 << 30),
                         depth=r.choice([3, 4, 4] if quick else [4, 4, 5]), samples=r.choice([1, 2]), grid=r.choice([3, 5, 7]),
                         style=r.choice(["gauss", "peaked", "flat"]), outlier_prob=r.choice([0.001, 0.05, 0.5]), swarm_runs=2,
-                        swarm_N=r.choice([1, 2, 5])))
+                        swarm_N=r.choice([1, 2, 5]), deep_paths=2 if quick else 6, deep_len=r.choice([6, 7, 8])))
     return out
 
 
@@ -272,12 +311,14 @@ def run(ctx):
     cfgs = configs(ctx)
     res = runner.pmap(run_config, cfgs, timeout=1500)
     tot = {"parents": 0, "pairs": 0, "leaves": 0, "genealogies": 0, "swarm_particles": 0}
+    max_roots = 0
     distinct = 0
     classes = {}
     for cfg, out in zip(cfgs, res):
         for k in tot:
             tot[k] += out["stats"][k]
         distinct += out["stats"]["distinct_pairs"]
+        max_roots = max(max_roots, out["stats"].get("max_top_level_clones", 0))
         for k, v in out["stats"]["classes"].items():
             classes[k] = classes.get(k, 0) + v
         seen = set()
@@ -292,10 +333,14 @@ def run(ctx):
     ctx.cov["rule"] = ("per configuration (proposal, outlier proposal probability, permutation distribution present/absent, alpha, data) all "
                        "genealogies to depth %s closed under the model's placements; one evaluation = one (parent state, next data point) pair "
                        "whose proposal was checked for normalisation, faithful sampling (complete outcome tree of sample()), completeness and "
-                       "weights; distinct_nontrivial = distinct (canonical non-empty parent, next data point) pairs per configuration, summed" % (
+                       "weights; plus seeded deep genealogies of 6-8 placements biased towards many top-level clones and outliers (parents with up to 6 "
+                       "top-level clones) with the same checks at every step; distinct_nontrivial = distinct (canonical non-empty parent, next "
+                       "data point) pairs per configuration, summed" % (
                            "4" if ctx.tier == "quick" else "5"))
     ctx.cov["configurations"] = len(cfgs)
     ctx.cov["parent_states"] = tot["parents"]
+    ctx.cov["max_top_level_clones_in_a_parent"] = max_roots
+    ctx.probe("parent_with_four_or_more_top_level_clones", int(max_roots >= 4))
     ctx.cov["complete_genealogies_weight_checked"] = tot["genealogies"]
     ctx.cov["leaves_visited"] = tot["leaves"]
     ctx.cov["swarm_particles_checked"] = tot["swarm_particles"]
